@@ -190,6 +190,52 @@ pub fn run(rep: &Report) -> i32 {
     par_for(&cs, rep, 4, |i, c| {
         drive::DUMMY.with(|env| check_case(rep, c, i, env));
     });
+    // two fold functions in one program whose bodies have the same text while their parameter lists differ (element
+    // and accumulator exchanged; accumulators of different types), both orders: each fold must run its own function.
+    // Expected values by hand from the statement (f(e, acc) = e keeps the last element, f(e, acc) = acc keeps init);
+    // every program also runs with one expected value changed, which must fail
+    {
+        let keep_elem = "fn keep_elem(a: u8, b: u8) -> u8 {\n    a\n}\n";
+        let keep_acc = "fn keep_acc(b: u8, a: u8) -> u8 {\n    a\n}\n";
+        let use_elem = |want: u8| format!("    let x: u8 = fold::<keep_elem, 4>(list![1, 2, 3], 9);\n    assert!(jet::eq_8(x, {want}));\n");
+        let use_acc = |want: u8| format!("    let y: u8 = fold::<keep_acc, 4>(list![1, 2, 3], 9);\n    assert!(jet::eq_8(y, {want}));\n");
+        let cnt = "{\n    let (carry, next): (bool, u8) = jet::increment_8(n);\n    next\n}\n";
+        let count_bytes = format!("fn count_bytes(e: u8, n: u8) -> u8 {cnt}");
+        let count_words = format!("fn count_words(e: u16, n: u8) -> u8 {cnt}");
+        let use_bytes = |want: u8| format!("    let p: u8 = fold::<count_bytes, 8>(list![7, 7, 7, 7, 7], 0);\n    assert!(jet::eq_8(p, {want}));\n");
+        let use_words = |want: u8| format!("    let q: u8 = fold::<count_words, 4>(list![7, 7, 7], 0);\n    assert!(jet::eq_8(q, {want}));\n");
+        let mut cases: Vec<(String, String, bool)> = vec![];
+        for (good1, good2) in [(true, true), (false, true), (true, false)] {
+            let ok = good1 && good2;
+            let (a, b) = (if good1 { 3 } else { 9 }, if good2 { 9 } else { 3 });
+            cases.push(("keep_elem then keep_acc".into(), format!("{keep_elem}{keep_acc}fn main() {{\n{}{}}}\n", use_elem(a), use_acc(b)), ok));
+            cases.push(("keep_acc then keep_elem".into(), format!("{keep_acc}{keep_elem}fn main() {{\n{}{}}}\n", use_acc(b), use_elem(a)), ok));
+            let (c, d) = (if good1 { 5 } else { 3 }, if good2 { 3 } else { 5 });
+            cases.push(("count_bytes then count_words".into(), format!("{count_bytes}{count_words}fn main() {{\n{}{}}}\n", use_bytes(c), use_words(d)), ok));
+            cases.push(("count_words then count_bytes".into(), format!("{count_words}{count_bytes}fn main() {{\n{}{}}}\n", use_words(d), use_bytes(c)), ok));
+        }
+        rep.set("twin_fold_function_programs", json!(cases.len()));
+        for (label, text, should) in &cases {
+            rep.state();
+            rep.transition(1);
+            rep.nontrivial(1);
+            for debug in [false, true] {
+                rep.eval(1);
+                rep.trace(1);
+                match drive::build(text, simfony::Arguments::default(), debug) {
+                    Ok(built) => {
+                        let out = drive::DUMMY.with(|env| drive::run(&built, drive::witness_map(&[]), env));
+                        let ok = matches!((&out, should), (drive::RunOutcome::Success, true) | (drive::RunOutcome::Failure(_), false));
+                        rep.class(if ok { "twin-folds-ok" } else { "twin-folds-wrong" });
+                        if !ok {
+                            rep.violation(format!("C08:twin-fold-functions:{}", out.class()), format!("{label}: expected {}, got {out:?}", if *should { "success" } else { "failure" }), run_replay(text, &[], debug, if *should { "success" } else { "failure" }, out.class()));
+                        }
+                    }
+                    Err(o) => rep.violation("C08:not-compiled", format!("{label}: not compiled: {o:?}"), json!({"kind": "compile", "program": text, "expect": "accept", "observed": "reject"})),
+                }
+            }
+        }
+    }
     rep.finish(
         "state = (bound N, length k, list source, fold function); non-trivial = lengths k >= 3 that populate at least two blocks of the list layout",
         &["R2's fold is the plain left fold of C08's statement", "jets used by the fold functions are modelled by R5 and trusted in simplicity-lang"],
